@@ -69,6 +69,10 @@ func (args *CrossChainArgs) Validate() error {
 	if args.Fee == nil || args.Fee.Sign() < 0 {
 		return errors.New("invalid fee")
 	}
+	// amount + fee is what Run collects and converts to a coin: it must fit the 256-bit sdkmath.Int
+	if new(big.Int).Add(args.Amount, args.Fee).BitLen() > 256 {
+		return errors.New("amount + fee overflow")
+	}
 	if args.Target == [32]byte{} {
 		return errors.New("empty target")
 	}
